@@ -20,7 +20,7 @@ RULE = ("random DAGs (<= 7 providers, depth <= 4, fan-out <= 3, shared sub-depen
         "fingerprint = canonical DAG + overrides + failure + converter; trivial = graphs without any edge")
 ASSUMPTIONS = ["in-memory broker; virtual time; sync providers run through an inline executor (the asyncify wrapper is kept)"]
 EVAL_COUNTER = "invocations_judged"
-REQUIRED = ["invocations_judged", "graphs_with_shared_subdeps", "overrides_applied", "provider_failures", "declaration_rejections", "msg_leaves", "concurrent_twins", "fresh_executions"]
+REQUIRED = ["invocations_judged", "graphs_with_shared_subdeps", "overrides_applied", "provider_failures", "declaration_rejections", "msg_leaves", "concurrent_twins", "fresh_executions", "same_function_depends_runs"]
 CASE_TIMEOUT = 120
 
 
@@ -29,6 +29,8 @@ def gen_cases(tier, seed):
     n = {"quick": 64, "thorough": 800}[tier]
     cases = [{"type": "graphs", "seed": rnd.randrange(10**6), "conv": rnd.choice(["basic", "pydantic"]), "n": 6} for _ in range(n)]
     cases.append({"type": "declarations", "seed": 0})
+    for i in range({"quick": 6, "thorough": 36}[tier]):
+        cases.append({"type": "twice", "seed": rnd.randrange(10**6), "conv": ["basic", "pydantic"][i % 2], "async": i % 3 == 0, "which": i % 3, "nested": i % 2 == 1})
     for i in range({"quick": 8, "thorough": 48}[tier]):
         cases.append({"type": "fresh", "seed": rnd.randrange(10**6), "keep": i % 2 == 0, "via_retry": (i // 2) % 2 == 0, "fails": 1 + i % 3, "recurring": i % 4 == 3})
     return cases
@@ -230,6 +232,53 @@ def declarations(out, stats, fps):
     _d(out, stats, fps, V)
 
 
+async def twice_scenario(loop, case, out, stats, fps):
+    """Several separately constructed Depends objects wrap the SAME provider function (in one actor, in a second actor, and
+    as a sub-dependency): overriding one of them replaces the provider exactly where that object is used, nowhere else."""
+    from repid import Depends
+    from rv.actors import make_dep_actor, make_provider
+    from rv.wl import World, run_worker
+
+    w = World(loop, "mem", converter=case["conv"], seed=case["seed"])
+    try:
+        await w.open()
+        r = w.router(retry_policy=lambda retry_number=1: timedelta(seconds=0.1))
+        await w.conn.message_broker.queue_declare("default")
+        received, called = [], []
+        f = make_provider("same", [], is_async=case["async"], record=called)
+        g = make_provider("other", [], is_async=not case["async"], record=called)
+        d = [Depends(f), Depends(f), Depends(f), Depends(f)]  # four objects, one function
+        parent = Depends(make_provider("parent", [("s0", d[3])], is_async=True, record=called))
+        r.actor(name="t1")(make_dep_actor("t1", [("x0", d[0]), ("x1", d[1])], [], w.log, received))
+        deps2 = [("y0", d[2])] + ([("y1", parent)] if case["nested"] else [])
+        r.actor(name="t2")(make_dep_actor("t2", deps2, [], w.log, received))
+        target = [1, 2, 3][case["which"]] if case["nested"] or case["which"] < 2 else 1
+        d[target].override(g)
+        stats["overrides_applied"] += 1
+        from repid import Job
+
+        for n in ("t1", "t2"):
+            await Job(n, id_=f"{n}-1", store_result=False, _connection=w.conn).enqueue()
+        worker = w.worker([r], tasks_limit=3, graceful_shutdown_time=3.0, handle_signals=[__import__("signal").SIGUSR1])
+        info = await run_worker(w, worker, until=lambda: len(received) >= 2, horizon=10.0, poll=0.1)
+        if info["exc"] is not None or not info["returned"]:
+            out.append(V("worker_died", "twice", f"{info}"))
+        tok = {i: (("other", ()) if i == target else ("same", ())) for i in range(4)}
+        want = {"t1": {"x0": tok[0], "x1": tok[1]}, "t2": {"y0": tok[2], **({"y1": ("parent", (("s0", tok[3]),))} if case["nested"] else {})}}
+        fps.add(f"twice/{case['conv']}/{case['async']}/{target}/{case['nested']}")
+        stats["same_function_depends_runs"] += 1
+        for rc in received:
+            stats["invocations_judged"] += 1
+            got = {k: normalize(v) for k, v in rc["kwargs"].items()}
+            exp = {k: normalize(v) for k, v in want[rc["actor"]].items()}
+            if got != exp:
+                out.append(V("value_mismatch", f"{case['conv']}/same-function-depends", f"{rc['actor']}: Depends object #{target} (of four wrapping one provider function) was overridden: got {got}, expected {exp}"))
+        if len(received) < 2:
+            out.append(V("missing_invocation", "twice", f"only {[rc['actor'] for rc in received]} ran"))
+    finally:
+        await w.close()
+
+
 async def fresh_scenario(loop, case, out, stats, fps):
     """The same message id is executed several times (retries after failures, explicit m.retry(), iterations of a recurring
     job): every execution's message dependency - in the actor and in its provider - must describe the CURRENT delivery."""
@@ -282,6 +331,10 @@ def run_case(case):
     out, fps, samples = [], set(), []
     if case["type"] == "declarations":
         declarations(out, stats, fps)
+    elif case["type"] == "twice":
+        res = vl.run(lambda loop: twice_scenario(loop, case, out, stats, fps), max_steps=4_000_000, seed=case["seed"])
+        if res.exc is not None:
+            out.append(V("harness_or_api_error", "twice", f"{type(res.exc).__name__}: {res.exc}"))
     elif case["type"] == "fresh":
         res = vl.run(lambda loop: fresh_scenario(loop, case, out, stats, fps), max_steps=4_000_000, seed=case["seed"])
         if res.exc is not None:
